@@ -520,6 +520,55 @@ pub fn cold_start(n: usize, seed: u64, turns: u32, depth: u32) -> (usize, usize)
 }
 
 
+/// Cold start on prepared states: the main thread builds four mid-turn states with the text parser and
+/// `take_action` only (no query has run in this process yet: a possible pull next to the h-file and one next to
+/// the a-file, a pending push, a third step), then `n` threads released together put their very first
+/// questions to the same state at the same instant (`first` rotates which one). Every thread's answers
+/// must equal the ones a single thread gets afterwards. Returns (threads that differ, answers compared).
+pub fn cold_start_prepared(n: usize, first: usize) -> (usize, usize) {
+    use std::sync::atomic::{AtomicUsize, Ordering};
+    let specs: [(&str, &[&str]); 4] = [
+        ("2g\n +-----------------+\n8| r r r   r r r   |\n7|       e         |\n6|                 |\n5|                 |\n4|                 |\n3|                 |\n2| R R R         r |\n1|       E       D |\n +-----------------+\n   a b c d e f g h", &["h1w"]),
+        ("2s\n +-----------------+\n8| d       e       |\n7| R         r r r |\n6|                 |\n5|                 |\n4|                 |\n3|                 |\n2|   R R     E     |\n1|       R R R     |\n +-----------------+\n   a b c d e f g h", &["a8e"]),
+        ("5g\n +-----------------+\n8| r r       r r   |\n7|                 |\n6|                 |\n5|       r         |\n4|     c E         |\n3|                 |\n2| R R         R   |\n1|                 |\n +-----------------+\n   a b c d e f g h", &["d5n"]),
+        ("7s\n +-----------------+\n8| r r       r r   |\n7|                 |\n6|         h       |\n5|         C       |\n4|                 |\n3|   D             |\n2| R R         R   |\n1|                 |\n +-----------------+\n   a b c d e f g h", &["e6w", "d6e", "e6w"]),
+    ];
+    let build = || -> Vec<GameState> {
+        specs
+            .iter()
+            .map(|(t, steps)| {
+                let mut g: GameState = t.parse().expect("prepared position parses");
+                for a in steps.iter() {
+                    g = g.take_action(&a.parse().expect("prepared step parses"));
+                }
+                g
+            })
+            .collect()
+    };
+    let states = Arc::new(build());
+    let gate = Arc::new(AtomicUsize::new(0));
+    let hs: Vec<_> = (0..n)
+        .map(|_| {
+            let gate = Arc::clone(&gate);
+            let states = Arc::clone(&states);
+            std::thread::spawn(move || {
+                gate.fetch_add(1, Ordering::AcqRel);
+                while gate.load(Ordering::Acquire) < n {
+                    std::hint::spin_loop();
+                }
+                let m = states.len();
+                (0..m).map(|k| (((first + k) % m) as u64, fingerprint(&states[(first + k) % m], false))).collect::<Vec<(u64, u64)>>()
+            })
+        })
+        .collect();
+    let results: Vec<Vec<(u64, u64)>> = hs.into_iter().map(|h| h.join().unwrap()).collect();
+    let again = build();
+    let m = again.len();
+    let expected: Vec<(u64, u64)> = (0..m).map(|k| (((first + k) % m) as u64, fingerprint(&again[(first + k) % m], false))).collect();
+    let bad = results.iter().filter(|r| **r != expected).count();
+    (bad, expected.len() * n)
+}
+
 fn collect(g: &GameState, depth: u32, out: &mut Vec<GameState>, cap: usize) {
     if out.len() >= cap {
         return;
